@@ -72,6 +72,32 @@ def chain_item(r):
             {"shape": "chain%d%s" % (k, "+unbounded" if any(j[1] is None for j in jumps) else ""), "cmd": "hexf", "pat": regen.hex_pat(toks)})
 
 
+def ooo_tail_item(r):
+    """a chained pattern whose last piece has two alternatives with their atoms at different depths, on data where the alternative with the
+    deep atom starts one byte before the other one: the scanner finds the later-starting match first (matches are found in the order of
+    their atoms' end positions, not of their offsets), and only the earlier one is within the jump's bounds"""
+    head = bytes(r.choice(b"ABCDEFGH") for _ in range(4))
+    a1 = bytes([0x11 + r.below(4), 0x22, 0x33, 0x44])
+    a2 = bytes([0x55 + r.below(4), 0x66, 0x77, 0x88])
+    n = r.range(5, 12)
+    hi = r.choice([201, 250, 300, 420])
+    lo = r.choice([0, 0, hi - 1, 150])
+    m = r.range(1, 6)
+    toks = [("b", c) for c in head] + [("jump", lo, hi)] + \
+           [("alt", [[("any",)] * n + [("b", c) for c in a1], [("b", c) for c in a2] + [("any",)] * m])]
+    bufs = []
+    for shift in (1, 2, 3):
+        if shift + 4 > n:
+            continue
+        for gap in (hi, hi - 1, lo):
+            tail = bytearray(b"." * (n + 4))
+            tail[shift:shift + 4] = a2          # the alternative with the shallow atom starts `shift` bytes later ...
+            tail[n:n + 4] = a1                  # ... and the one with the deep atom starts at the jump's bound
+            bufs.append(b"~~" + head + b"." * gap + bytes(tail) + b"." * (m + 2))
+    return ("{ %s }" % regen.hex_print(toks), regen.hex_sexp(toks), bufs[:6],
+            {"shape": "chain-tail-out-of-order", "cmd": "hexf", "pat": regen.hex_pat(toks)})
+
+
 def run(chk):
     tier = chk.tier
     ok, log, st = vlib.proof_obligations(chk, PROPS)
@@ -127,7 +153,22 @@ def run(chk):
     nchain = 30 if tier == "quick" else 500
     for i in range(nchain):
         items.append(chain_item(chk.rng.fork()))
+    for i in range(8 if tier == "quick" else 120):
+        items.append(ooo_tail_item(chk.rng.fork()))
     agree, total, nontriv, rejected = recheck.compare(chk, model, hscan, items, "hex")
+    # probe of the known finding: a hex string that is not a plain literal and is longer than YR_RE_SCAN_LIMIT bytes never matches
+    lim = int(vlib.consts().get("YR_RE_SCAN_LIMIT", 1024))
+    for n_, key in ((lim - 4, "scan-limit-probe"), (lim + 1, "non-literal-longer-than-scan-limit")):
+        toks_ = ["%02X" % (i % 251 + 1) for i in range(n_)]
+        toks_[n_ // 2] = "??"
+        data_ = bytes(i % 251 + 1 for i in range(n_))
+        src_ = "rule r { strings: $a = { %s } condition: $a }" % " ".join(toks_)
+        pout, _ = vlib.run_cases(hscan, [("p", ["newcompiler", "add " + hx(src_.encode()), "getrules", "scanner 0", "scan " + hx(b"xx" + data_ + b"yy")])], timeout=120, args=["30"])
+        sc_ = [l for l in pout.get("p", []) if l.startswith("scan msgs=")]
+        if sc_ and "M:default:r" not in sc_[0]:
+            chk.violation(key, "a hex string of %d bytes with one ?? in the middle does not match its own bytes (YR_RE_SCAN_LIMIT = %d): strings that are not plain "
+                          "literals never match when the match is longer than the limit" % (n_, lim),
+                          {"rule": src_[:300] + " ...", "length": n_, "how": "the data is xx + the bytes 01 02 .. (i %% 251 + 1) + yy", "output": sc_[0][:200]})
     dist = {}
     for it in items:
         for k in it[3]["shape"].replace("/", "+").split("+"):
